@@ -1,6 +1,7 @@
 (* C14 — durability clauses: what is served is what is stored after every successful change, and a
-   failed write leaves the served state alone.  Both are false of the code as it is (model/C14_Store.v
-   mirrors it): the refutations and the strongest true statements are proved here. *)
+   failed write leaves the served state alone.  Proved on the code as repaired by the fix commits
+   52967fc, 5702f33, fd69f18 in /repo (model/C14_Store.v mirrors it); the witnesses that refuted both
+   statements on the tree before are kept as regression lemmas at the end. *)
 From Coq Require Import String Ascii.
 From PDV Require Import lib.Base lib.C14_AList model.C14_Store proof.C14_StoreProof.
 Local Open Scope string_scope.
@@ -8,7 +9,7 @@ Local Open Scope Z_scope.
 
 (* ---------- projections ---------- *)
 (* lifecycle / identity fields of a served record (everything LoadStores can give back) *)
-Definition proj (x : sstore) := (s_addr x, s_state x, s_pd x, labels_of (s_cells x), s_ver x, s_lw x, s_rw x).
+Definition proj (x : sstore) := (s_addr x, s_state x, s_pd x, s_labels x, s_ver x, s_lw x, s_rw x).
 Definition sproj (s : state) (id : Z) := option_map proj (sv s id).
 Definition sm (s : state) (id : Z) : option meta := aget (st_meta s) id.
 Definition wl (s : state) (id : Z) : Z := match aget (st_lw s) id with Some w => w | None => 1 end.
@@ -21,9 +22,12 @@ Definition agree (s : state) (id : Z) : Prop := sproj s id = stored_proj s id.
 (* the meta record in storage is the served one *)
 Definition synced (s : state) (id : Z) : Prop :=
   match sv s id with Some x => sm s id = Some (meta_of x) | None => sm s id = None end.
-(* the weight keys in storage are the served weights *)
+(* the weight keys in storage are the served weights; an id that is not served has no weight keys *)
 Definition wagree (s : state) (id : Z) : Prop :=
-  match sv s id with Some x => s_lw x = wl s id /\ s_rw x = wr_ s id | None => True end.
+  match sv s id with
+  | Some x => s_lw x = wl s id /\ s_rw x = wr_ s id
+  | None => aget (st_lw s) id = None /\ aget (st_rw s) id = None
+  end.
 Definition Winv (s : state) : Prop := forall id, wagree s id.
 
 Lemma synced_wagree_agree s id : synced s id -> wagree s id -> agree s id.
@@ -33,15 +37,7 @@ Proof.
   - intros -> _. reflexivity.
 Qed.
 
-Lemma map_snd_combine_seq {A} (l : list A) : forall n, map snd (combine (seq n (length l)) l) = l.
-Proof. induction l as [|a l IH]; intros n; cbn; [reflexivity|]. rewrite IH. reflexivity. Qed.
-Lemma labels_renumber l : labels_of (renumber l) = l.
-Proof. unfold labels_of, renumber. apply map_snd_combine_seq. Qed.
-
 (* ---------- field frames of the helpers ---------- *)
-Lemma f_roll_add s id : served (roll_add s id) = served s /\ st_meta (roll_add s id) = st_meta s /\
-  st_lw (roll_add s id) = st_lw s /\ st_rw (roll_add s id) = st_rw s.
-Proof. unfold roll_add. destruct (existsb _ _); cbn; auto. Qed.
 Lemma f_version_change s : served (version_change s) = served s /\ st_meta (version_change s) = st_meta s /\
   st_lw (version_change s) = st_lw s /\ st_rw (version_change s) = st_rw s.
 Proof. unfold version_change. destruct (min_ver _); [destruct (ver_lt _ _)|]; cbn; auto. Qed.
@@ -67,8 +63,7 @@ Proof.
   intros H. split; [apply (put_locked_sv _ _ _ _ _ _ _ H)|].
   unfold put_locked in H.
   destruct (wr_cases f id idx) as [E|[E|E]]; rewrite E in H; cbn in H; inv H.
-  - destruct (f_roll_add (set_served (write_meta s id (meta_of x)) id x) id) as (_&B&C&D).
-    unfold sm. rewrite B, C, D. cbn. repeat split; auto.
+  - unfold sm. cbn. repeat split; auto.
     + intros _. apply aget_aset_eq.
     + intros j Hj. apply aget_aset_ne. auto.
   - repeat split; auto. discriminate.
@@ -76,21 +71,9 @@ Proof.
 Qed.
 
 (* ---------- what one command does to one store id, durability view ---------- *)
-Definition with_cells (x : sstore) (c : list lcell) : sstore :=
-  SStore (s_addr x) (s_state x) (s_pd x) c (s_cap x) (s_ver x) (s_lw x) (s_rw x) (s_rcf x) (s_hbp x) (s_hb x).
-(* a put / label update that goes through MergeLabels on store id with the label list ls *)
-Definition merging (o : op) (id : Z) (ls : list label) : Prop :=
-  match o with
-  | OPut _ p _ => p_id p = id /\ p_labels p = ls
-  | OLabels i l false _ => i = id /\ l = ls
-  | _ => False
-  end.
-
 Inductive outcome (s : state) (o : op) (s' : state) (r : res) (id : Z) : Prop :=
 | oa_same : sproj s' id = sproj s id -> outcome s o s' r id
-| oa_sync : (is_err r = false \/ is_clean o = true) -> synced s' id -> outcome s o s' r id
-| oa_inplace old ls : is_err r = true -> merging o id ls -> sv s id = Some old ->
-    sv s' id = Some (with_cells old (snd (merge_labels (s_cells old) (s_cap old) ls))) -> outcome s o s' r id.
+| oa_sync : (is_err r = false \/ is_clean o = true) -> synced s' id -> outcome s o s' r id.
 
 Lemma sproj_eq s s' id : sv s' id = sv s id -> sproj s' id = sproj s id.
 Proof. unfold sproj; intros ->; reflexivity. Qed.
@@ -100,10 +83,6 @@ Proof. intros H. destruct (same_store_views _ _ id H) as (A&B&_). unfold synced.
 
 Lemma same_store_version_change s : same_store (version_change s) s.
 Proof. apply f_version_change. Qed.
-Lemma same_store_roll_del s id : same_store (roll_del s id) s.
-Proof. repeat split. Qed.
-Lemma same_store_roll_add s id : same_store (roll_add s id) s.
-Proof. apply f_roll_add. Qed.
 
 (* generic: a guarded single write through put_locked on the target, nothing else *)
 Lemma put_locked_outcome s0 o s id x f idx s' ok r j :
@@ -121,67 +100,30 @@ Proof.
     destruct (Z.eqb_spec id j); [contradiction|]. rewrite andb_false_r. apply Hs.
 Qed.
 
-Lemma put_impl_outcome s p force f s' r o :
-  put_impl s p force f = (s', r) ->
-  (force = false -> forall old, sv s (p_id p) = Some old -> merging o (p_id p) (p_labels p)) ->
-  forall j, outcome s o s' r j.
+Lemma put_impl_outcome s p force f s' r o : put_impl s p force f = (s', r) -> forall j, outcome s o s' r j.
 Proof.
-  unfold put_impl. intros H Hm j.
+  unfold put_impl. intros H j.
   destruct (p_id p =? 0); [inv H; apply oa_same; reflexivity|].
   destruct (p_ver p) as [v|]; [|inv H; apply oa_same; reflexivity].
   destruct (negb (compatible (cver s) v)); [inv H; apply oa_same; reflexivity|].
   destruct (dup_addr s (p_id p) (p_addr p)); [inv H; apply oa_same; reflexivity|].
-  destruct (sv s (p_id p)) as [old|] eqn:Eold.
-  - destruct force.
-    + (* forced labels: no merge, nothing happens before the write *)
-      match type of H with context [put_locked ?a ?b ?c ?d ?e] => destruct (put_locked a b c d e) as [s1 ok] eqn:Epl end.
-      inv H.
-      destruct (put_locked_full _ _ _ _ _ _ _ Epl) as (A&B&C&_&_).
-      destruct (Z.eqb_spec (p_id p) j) as [<-|Hne].
-      * destruct ok.
-        -- apply oa_sync; [left; reflexivity|]. unfold synced. rewrite A, Z.eqb_refl. cbn. auto.
-        -- apply oa_same. unfold sproj. rewrite A. cbn [andb]. rewrite sv_set_served, Z.eqb_refl, Eold. reflexivity.
-      * apply oa_same. apply sproj_eq. rewrite A.
-        destruct (Z.eqb_spec (p_id p) j); [contradiction|]. rewrite andb_false_r, sv_set_served.
-        destruct (Z.eqb_spec (p_id p) j); [contradiction|reflexivity].
-    + destruct (merge_labels (s_cells old) (s_cap old) (p_labels p)) as [ls cells'] eqn:Em.
-      match type of H with context [put_locked ?a ?b ?c ?d ?e] => destruct (put_locked a b c d e) as [s1 ok] eqn:Epl end.
-      inv H.
-      destruct (put_locked_full _ _ _ _ _ _ _ Epl) as (A&B&C&_&_).
-      destruct (Z.eqb_spec (p_id p) j) as [<-|Hne].
-      * destruct ok.
-        -- apply oa_sync; [left; reflexivity|]. unfold synced. rewrite A, Z.eqb_refl. cbn. auto.
-        -- eapply oa_inplace; [reflexivity|apply (Hm eq_refl old eq_refl)|exact Eold|].
-           rewrite A. cbn [andb]. rewrite sv_set_served, Z.eqb_refl. rewrite Em. reflexivity.
-      * apply oa_same. apply sproj_eq. rewrite A.
-        destruct (Z.eqb_spec (p_id p) j); [contradiction|]. rewrite andb_false_r, sv_set_served.
-        destruct (Z.eqb_spec (p_id p) j); [contradiction|reflexivity].
-  - match type of H with context [put_locked ?a ?b ?c ?d ?e] => destruct (put_locked a b c d e) as [s1 ok] eqn:Epl end.
-    inv H. eapply put_locked_outcome; [exact Epl|reflexivity|]. intros ->. reflexivity.
+  destruct (sv s (p_id p)) as [old|] eqn:Eold;
+    match type of H with context [put_locked ?a ?b ?c ?d ?e] => destruct (put_locked a b c d e) as [s1 ok] eqn:Epl end;
+    inv H; (eapply put_locked_outcome; [exact Epl|reflexivity|]); intros ->; reflexivity.
 Qed.
 
 Lemma outcome_same_store s o s1 s' r j : same_store s' s1 -> outcome s o s1 r j -> outcome s o s' r j.
 Proof.
   intros H O. destruct (same_store_views _ _ j H) as (A&B&_).
-  destruct O as [E|Hr Hs|old ls Hr Hm Eo En].
+  destruct O as [E|Hr Hs].
   - apply oa_same. unfold sproj in *. rewrite A. exact E.
   - apply oa_sync; [exact Hr|]. eapply synced_same_store; eauto.
-  - eapply oa_inplace; eauto. rewrite A. exact En.
-Qed.
-
-Lemma outcome_res s o s' r r' j : is_err r = is_err r' -> outcome s o s' r j -> outcome s o s' r' j.
-Proof.
-  intros H O. destruct O as [E|Hr Hs|old ls Hr Hm Eo En].
-  - apply oa_same; auto.
-  - apply oa_sync; [rewrite <- H; exact Hr|exact Hs].
-  - eapply oa_inplace; [rewrite <- H; exact Hr|exact Hm|exact Eo|exact En].
 Qed.
 
 Lemma do_put_outcome s p f s' r g : do_put s p f = (s', r) -> forall j, outcome s (OPut g p f) s' r j.
 Proof.
   unfold do_put. destruct (put_impl s p false f) as [s1 r1] eqn:E. intros H j.
-  assert (O : outcome s (OPut g p f) s1 r1 j).
-  { eapply put_impl_outcome; [exact E|]. intros _ old _. cbn. auto. }
+  pose proof (put_impl_outcome _ _ _ _ _ _ (OPut g p f) E j) as O.
   destruct r1; inv H; try exact O.
   eapply outcome_same_store; [apply same_store_version_change|exact O].
 Qed.
@@ -190,7 +132,7 @@ Lemma do_labels_outcome s id ls force f s' r :
   do_labels s id ls force f = (s', r) -> forall j, outcome s (OLabels id ls force f) s' r j.
 Proof.
   unfold do_labels. destruct (sv s id) as [x|] eqn:E; intros H j; [|inv H; apply oa_same; reflexivity].
-  eapply put_impl_outcome; [exact H|]. intros -> old _. cbn. auto.
+  eapply put_impl_outcome; exact H.
 Qed.
 
 Lemma do_remove_outcome s id pd f s' r o : do_remove s id pd f = (s', r) -> forall j, outcome s o s' r j.
@@ -226,10 +168,7 @@ Proof.
   destruct (sstate_eqb (s_state x) Up); [inv H; rewrite E; repeat split; auto|].
   destruct (put_locked s id (with_state x Tombstone (s_pd x)) f 0) as [s1 ok] eqn:Epl. inv H.
   destruct (put_locked_full _ _ _ _ _ _ _ Epl) as (A&B&C&D&F).
-  set (s2 := if ok then roll_del (version_change s1) id else version_change s1).
-  assert (SS : same_store s2 s1).
-  { subst s2. destruct ok; [eapply same_store_trans; [apply same_store_roll_del|]|]; apply same_store_version_change. }
-  destruct SS as (S1&S2&S3&S4).
+  destruct (same_store_version_change s1) as (S1&S2&S3&S4).
   split; [rewrite S3; exact D|]. split; [rewrite S4; exact F|]. split.
   - intros j Hj. unfold sv, sm. rewrite S1, S2. fold (sv s1 j) (sm s1 j). rewrite A, (C j Hj).
     destruct (Z.eqb_spec id j); [congruence|]. rewrite andb_false_r. auto.
@@ -285,6 +224,9 @@ Proof.
   - apply oa_sync; [left; reflexivity|exact E].
 Qed.
 
+Lemma sm_restore_weights s s0 id k : sm (restore_weights s s0 id) k = sm s k.
+Proof. reflexivity. Qed.
+
 Lemma do_weight_outcome s id lw rw f s' r o : do_weight s id lw rw f = (s', r) -> forall j, outcome s o s' r j.
 Proof.
   unfold do_weight. destruct (sv s id) as [x|] eqn:E; intros H j; [|inv H; apply oa_same; reflexivity].
@@ -293,38 +235,61 @@ Proof.
   destruct (wr f id 1) as [a1 ok1]. destruct ok1; cbn [negb] in H.
   2:{ inv H. apply oa_same, sproj_eq. destruct a0, a1; reflexivity. }
   match type of H with context [put_locked ?a ?b ?c ?d ?e] => destruct (put_locked a b c d e) as [s2 ok] eqn:Epl end.
-  inv H. eapply put_locked_outcome; [exact Epl| |intros ->; reflexivity].
-  intros k. destruct a0, a1; reflexivity.
+  assert (Es : forall k, sv (if a1 then write_rw (if a0 then write_lw s id lw else s) id rw else if a0 then write_lw s id lw else s) k = sv s k)
+    by (intros k; destruct a0, a1; reflexivity).
+  destruct ok; inv H.
+  - eapply put_locked_outcome; [exact Epl|exact Es|reflexivity].
+  - apply oa_same, sproj_eq.
+    change (sv (write_rw (write_lw s2 id (s_lw x)) id (s_rw x)) j) with (sv s2 j).
+    destruct (put_locked_full _ _ _ _ _ _ _ Epl) as (A&_). rewrite A. cbn [andb]. apply Es.
+Qed.
+
+(* Storage.DeleteStore *)
+Lemma delete_store_dur s id f s1 ok :
+  delete_store s id f = (s1, ok) ->
+  served s1 = served s /\ (forall j, j <> id -> sm s1 j = sm s j) /\ (ok = true -> sm s1 id = None).
+Proof.
+  unfold delete_store. destruct (wr_cases f id 0) as [W0|[W0|W0]]; rewrite W0; cbn [negb].
+  2,3: intros H; inv H; repeat split; auto; discriminate.
+  destruct (wr_cases f id 1) as [W1|[W1|W1]]; rewrite W1; cbn [negb].
+  2,3: intros H; inv H; repeat split; auto; discriminate.
+  destruct (wr_cases f id 2) as [W2|[W2|W2]]; rewrite W2; cbn [negb]; intros H; inv H.
+  - split; [reflexivity|]. split.
+    + intros j Hj. unfold sm; cbn. apply aget_adel_ne; auto.
+    + intros _. unfold sm; cbn. apply aget_adel_eq.
+  - repeat split; auto. discriminate.
+  - split; [reflexivity|]. split; [|discriminate]. intros j Hj. unfold sm; cbn. apply aget_adel_ne; auto.
 Qed.
 
 (* RemoveTombStoneRecords *)
 Lemma clean_loop_dur f order : forall s s' r,
   clean_loop s order f = (s', r) ->
-  st_lw s' = st_lw s /\ st_rw s' = st_rw s /\
   forall j, (sv s' j = sv s j /\ (sv s j = None -> sm s' j = sm s j)) \/ (sv s' j = None /\ sm s' j = None).
 Proof.
-  induction order as [|id rest IH]; intros s s' r H; cbn [clean_loop] in H; [inv H; repeat split; auto|].
+  induction order as [|id rest IH]; intros s s' r H; cbn [clean_loop] in H; [inv H; auto|].
   destruct (sv s id) as [x|] eqn:E; [|eapply IH; eauto].
   destruct (is_tomb x && (s_rcf x <=? 0))%bool; [|eapply IH; eauto].
-  destruct (wr_cases f id 0) as [W|[W|W]]; rewrite W in H.
-  - destruct (IH _ _ _ H) as (L&R&D). split; [exact L|]. split; [exact R|]. intros j.
+  destruct (delete_store s id f) as [s1 ok] eqn:Ed.
+  destruct (delete_store_dur _ _ _ _ _ Ed) as (Sv&Sm&Sd).
+  assert (Sv' : forall k, sv s1 k = sv s k) by (intros k; unfold sv; rewrite Sv; reflexivity).
+  destruct ok.
+  - pose proof (IH _ _ _ H) as D. intros j.
     destruct (Z.eqb_spec id j) as [->|Hne].
     + right. destruct (D j) as [[D1 D2]|D1]; [|exact D1].
       rewrite sv_del_served, Z.eqb_refl in D1, D2. split; [exact D1|].
-      rewrite (D2 eq_refl). unfold sm; cbn. apply aget_adel_eq.
+      rewrite (D2 eq_refl). change (sm (del_served s1 j) j) with (sm s1 j). apply Sd; reflexivity.
     + destruct (D j) as [[D1 D2]|D1]; [left|right; exact D1].
       rewrite sv_del_served in D1, D2. destruct (Z.eqb_spec id j); [contradiction|].
-      split; [exact D1|]. intros Hn. rewrite (D2 Hn). unfold sm; cbn. apply aget_adel_ne; auto.
-  - inv H. repeat split; auto.
-  - inv H. split; [reflexivity|]. split; [reflexivity|]. intros j. left. split; [reflexivity|].
-    intros Hn. unfold sm; cbn. apply aget_adel_ne. intros ->. congruence.
+      rewrite Sv' in D1, D2. split; [exact D1|]. intros Hn. rewrite (D2 Hn).
+      change (sm (del_served s1 id) j) with (sm s1 j). apply Sm; auto.
+  - inv H. intros j. left. split; [apply Sv'|]. intros Hn. apply Sm. intros ->. congruence.
 Qed.
 
 Lemma do_clean_outcome s order f s' r : do_clean s order f = (s', r) -> forall j, outcome s (OClean order f) s' r j.
 Proof.
   unfold do_clean. destruct (clean_loop s order f) as [s1 r1] eqn:E. intros H j.
   assert (s' = s1) as -> by (destruct r1; try (inv H; reflexivity); destruct (cleanable s1); inv H; reflexivity).
-  destruct (clean_loop_dur _ _ _ _ _ E) as (_&_&D). destruct (D j) as [[D1 _]|[D1 D2]].
+  destruct (clean_loop_dur _ _ _ _ _ E j) as [[D1 _]|[D1 D2]].
   - apply oa_same, sproj_eq, D1.
   - apply oa_sync; [right; reflexivity|]. unfold synced. rewrite D1. exact D2.
 Qed.
@@ -333,15 +298,10 @@ Lemma do_heartbeat_outcome s id f s' r o : do_heartbeat s id f = (s', r) -> fora
 Proof.
   unfold do_heartbeat. destruct (sv s id) as [x|] eqn:E; intros H j; [|inv H; apply oa_same; reflexivity].
   destruct (is_tomb x); [inv H; apply oa_same; reflexivity|].
-  destruct (if s_hbp x then (false, true) else wr f id 0) as [applied ok].
-  match type of H with context [roll_add ?a ?b] => set (s2 := roll_add a b) in * end.
-  assert (Es : sproj s2 j = sproj s j).
-  { unfold sproj. subst s2. rewrite sv_roll_add, sv_set_served.
-    assert (Ea : sv (if applied then write_meta s id (meta_of x) else s) j = sv s j) by (destruct applied; reflexivity).
-    rewrite Ea. destruct (Z.eqb_spec id j) as [<-|]; [|reflexivity]. rewrite E. cbn. unfold proj. cbn.
-    rewrite labels_renumber. reflexivity. }
-  apply oa_same. rewrite <- Es. apply sproj_eq.
-  destruct (existsb _ (rolling s2)); inv H; reflexivity.
+  destruct (if s_hbp x then (false, true) else wr f id 0) as [applied ok]. inv H.
+  apply oa_same. unfold sproj. rewrite sv_set_served.
+  assert (Ea : sv (if applied then write_meta s id (meta_of x) else s) j = sv s j) by (destruct applied; reflexivity).
+  rewrite Ea. destruct (Z.eqb_spec id j) as [<-|]; [|reflexivity]. rewrite E. reflexivity.
 Qed.
 
 Lemma refresh_rcf_sproj s id j : sproj (refresh_rcf s id) j = sproj s j.
@@ -360,8 +320,7 @@ Qed.
 (* ---------- every command, every id ---------- *)
 Theorem run_cmd_outcome s o s' r : run_cmd s o = (s', r) -> forall j, outcome s o s' r j.
 Proof.
-  unfold run_cmd. destruct (crashed s); [intros H; inv H; intros j; apply oa_same; reflexivity|].
-  destruct o as [g p f|id ls force f|id pd f|id f|id f|corder f|id lw rw f|order f|id f|rg stores]; cbn [run_cmd0]; intros H.
+  destruct o as [g p f|id ls force f|id pd f|id f|id f|corder f|id lw rw f|order f|id f|rg stores]; cbn [run_cmd]; intros H.
   - destruct g.
     + destruct (sv s (p_id p)) as [x|] eqn:E.
       * destruct (is_tomb x); [inv H; intros j; apply oa_same; reflexivity|]. eapply do_put_outcome; eauto.
@@ -378,76 +337,69 @@ Proof.
   - inv H. intros j. apply oa_same. apply do_region_sproj.
 Qed.
 
-(* ---------- the weight keys ---------- *)
-(* the excluded class of the partial theorem: a SetStoreWeight whose writes are faulted, and a new
-   registration of an id whose weight keys are still in storage (left there by the tombstone cleanup) *)
-Definition op_hazard_free (s : state) (o : op) : Prop :=
-  match o with
-  | OWeight _ _ _ f => f = NoFault
-  | OPut _ p _ => sv s (p_id p) = None -> aget (st_lw s) (p_id p) = None /\ aget (st_rw s) (p_id p) = None
-  | _ => True
-  end.
-
+(* ---------- the weight keys: an invariant of every history ---------- *)
+(* frame: weight keys untouched, served weights inherited, served ids not growing *)
 Definition wf_rel (s s' : state) : Prop :=
   st_lw s' = st_lw s /\ st_rw s' = st_rw s /\
-  forall id y, sv s' id = Some y -> exists x, sv s id = Some x /\ s_lw y = s_lw x /\ s_rw y = s_rw x.
+  forall id, match sv s' id with
+             | Some y => exists x, sv s id = Some x /\ s_lw y = s_lw x /\ s_rw y = s_rw x
+             | None => sv s id = None
+             end.
 Lemma wf_rel_refl s : wf_rel s s.
-Proof. repeat split. intros id y E; eauto. Qed.
+Proof. repeat split. intros id. destruct (sv s id); eauto. Qed.
 Lemma wf_rel_trans a b c : wf_rel a b -> wf_rel b c -> wf_rel a c.
 Proof.
   intros (A1&A2&A3) (B1&B2&B3). split; [congruence|]. split; [congruence|].
-  intros id z E. destruct (B3 _ _ E) as (y&Ey&L1&R1). destruct (A3 _ _ Ey) as (x&Ex&L2&R2).
-  exists x. repeat split; congruence.
+  intros id. specialize (A3 id). specialize (B3 id). destruct (sv c id) as [z|].
+  - destruct B3 as (y&Ey&L1&R1). rewrite Ey in A3. destruct A3 as (x&Ex&L2&R2). exists x. repeat split; congruence.
+  - rewrite B3 in A3. exact A3.
 Qed.
 Lemma wf_rel_same_store s s' : same_store s' s -> wf_rel s s'.
 Proof.
-  intros (A&B&C&D). split; [exact C|]. split; [exact D|]. intros id y E. unfold sv in *. rewrite A in E. eauto.
+  intros (A&B&C&D). split; [exact C|]. split; [exact D|]. intros id. unfold sv. rewrite A. destruct (aget (served s) id); eauto.
 Qed.
 Lemma Winv_wf s s' : Winv s -> wf_rel s s' -> Winv s'.
 Proof.
-  intros I (A&B&C) id. unfold wagree. destruct (sv s' id) as [y|] eqn:E; [|exact Logic.I].
-  destruct (C _ _ E) as (x&Ex&L&R). specialize (I id). unfold wagree in I. rewrite Ex in I.
-  unfold wl, wr_ in *. rewrite A, B. destruct I; split; congruence.
+  intros I (A&B&C) id. specialize (C id). specialize (I id). unfold wagree, wl, wr_ in *. rewrite A, B.
+  destruct (sv s' id) as [y|].
+  - destruct C as (x&Ex&L&R). rewrite Ex in I. destruct I; split; congruence.
+  - rewrite C in I. exact I.
 Qed.
 
 Lemma put_locked_wf s id x0 x f idx s' ok :
   put_locked s id x f idx = (s', ok) -> sv s id = Some x0 -> s_lw x = s_lw x0 -> s_rw x = s_rw x0 -> wf_rel s s'.
 Proof.
   intros H E L R. destruct (put_locked_full _ _ _ _ _ _ _ H) as (A&_&_&D&F).
-  split; [exact D|]. split; [exact F|]. intros j y Ej. rewrite A in Ej.
-  destruct (ok && (id =? j))%bool eqn:Eg; [|eauto].
-  apply andb_true_iff in Eg as [_ Eg]. apply Z.eqb_eq in Eg. subst j. inv Ej. eauto.
+  split; [exact D|]. split; [exact F|]. intros j. rewrite A.
+  destruct (ok && (id =? j))%bool eqn:Eg.
+  - apply andb_true_iff in Eg as [_ Eg]. apply Z.eqb_eq in Eg. subst j. eauto.
+  - destruct (sv s j); eauto.
 Qed.
 
 Lemma set_served_wf s id x0 x : sv s id = Some x0 -> s_lw x = s_lw x0 -> s_rw x = s_rw x0 -> wf_rel s (set_served s id x).
 Proof.
-  intros E L R. repeat split. intros j y Ej. rewrite sv_set_served in Ej.
-  destruct (Z.eqb_spec id j) as [<-|]; [inv Ej; eauto|eauto].
+  intros E L R. repeat split. intros j. rewrite sv_set_served.
+  destruct (Z.eqb_spec id j) as [<-|]; [eauto|destruct (sv s j); eauto].
 Qed.
 
-Lemma put_impl_wf s p force f s' r :
-  put_impl s p force f = (s', r) ->
-  (sv s (p_id p) = None -> aget (st_lw s) (p_id p) = None /\ aget (st_rw s) (p_id p) = None) ->
-  Winv s -> Winv s'.
+Lemma put_impl_winv s p force f s' r : put_impl s p force f = (s', r) -> Winv s -> Winv s'.
 Proof.
-  unfold put_impl. intros H Hz I.
+  unfold put_impl. intros H I.
   destruct (p_id p =? 0); [inv H; exact I|].
   destruct (p_ver p) as [v|]; [|inv H; exact I].
   destruct (negb (compatible (cver s) v)); [inv H; exact I|].
   destruct (dup_addr s (p_id p) (p_addr p)); [inv H; exact I|].
   destruct (sv s (p_id p)) as [old|] eqn:Eold.
-  - destruct (if force then (p_labels p, s_cells old) else merge_labels (s_cells old) (s_cap old) (p_labels p)) as [ls cells'].
-    match type of H with context [put_locked ?a ?b ?c ?d ?e] => destruct (put_locked a b c d e) as [s1 ok] eqn:Epl end.
-    inv H. eapply Winv_wf; [exact I|]. eapply wf_rel_trans.
-    2:{ eapply put_locked_wf; [exact Epl|rewrite sv_set_served, Z.eqb_refl; reflexivity|reflexivity|reflexivity]. }
-    eapply (set_served_wf s (p_id p) old); [exact Eold|reflexivity|reflexivity].
   - match type of H with context [put_locked ?a ?b ?c ?d ?e] => destruct (put_locked a b c d e) as [s1 ok] eqn:Epl end.
-    inv H. destruct (put_locked_full _ _ _ _ _ _ _ Epl) as (A&_&_&D&F). destruct (Hz eq_refl) as [Z1 Z2].
-    intros j. unfold wagree. rewrite A.
+    inv H. eapply Winv_wf; [exact I|]. eapply put_locked_wf; [exact Epl|exact Eold|reflexivity|reflexivity].
+  - (* a new store: it is served with weights 1/1, and there are no weight keys for an id that is not served *)
+    match type of H with context [put_locked ?a ?b ?c ?d ?e] => destruct (put_locked a b c d e) as [s1 ok] eqn:Epl end.
+    inv H. destruct (put_locked_full _ _ _ _ _ _ _ Epl) as (A&_&_&D&F).
+    pose proof (I (p_id p)) as Ip. unfold wagree in Ip. rewrite Eold in Ip. destruct Ip as [Z1 Z2].
+    intros j. unfold wagree, wl, wr_. rewrite A, D, F.
     destruct (ok && (p_id p =? j))%bool eqn:Eg.
-    + apply andb_true_iff in Eg as [_ Eg]. apply Z.eqb_eq in Eg. subst j.
-      unfold wl, wr_. rewrite D, F, Z1, Z2. cbn. auto.
-    + specialize (I j). unfold wagree, wl, wr_ in *. rewrite D, F. exact I.
+    + apply andb_true_iff in Eg as [_ Eg]. apply Z.eqb_eq in Eg. subst j. rewrite Z1, Z2. cbn. auto.
+    + exact (I j).
 Qed.
 
 Lemma Winv_same_store s s' : same_store s' s -> Winv s -> Winv s'.
@@ -460,7 +412,7 @@ Proof.
   destruct (sstate_eqb (s_state x) Up); [inv H; apply wf_rel_refl|].
   destruct (put_locked s id (with_state x Tombstone (s_pd x)) f 0) as [s1 ok] eqn:Epl. inv H.
   eapply wf_rel_trans; [eapply put_locked_wf; [exact Epl|exact E|reflexivity|reflexivity]|].
-  apply wf_rel_same_store. destruct ok; [eapply same_store_trans; [apply same_store_roll_del|]|]; apply same_store_version_change.
+  apply wf_rel_same_store, same_store_version_change.
 Qed.
 
 Lemma do_check_wf s order f : wf_rel s (do_check s order f).
@@ -476,35 +428,70 @@ Proof.
   apply G, wf_rel_refl.
 Qed.
 
-Lemma clean_loop_wf f order : forall s s' r, clean_loop s order f = (s', r) -> wf_rel s s'.
-Proof.
-  induction order as [|id rest IH]; intros s s' r H; cbn [clean_loop] in H; [inv H; apply wf_rel_refl|].
-  destruct (sv s id) as [x|] eqn:E; [|eapply IH; eauto].
-  destruct (is_tomb x && (s_rcf x <=? 0))%bool; [|eapply IH; eauto].
-  destruct (wr_cases f id 0) as [W|[W|W]]; rewrite W in H.
-  - eapply wf_rel_trans; [|eapply IH; exact H].
-    repeat split. intros j y Ej. rewrite sv_del_served in Ej. destruct (id =? j); [discriminate|]. eauto.
-  - inv H. apply wf_rel_refl.
-  - inv H. repeat split. intros j y Ej. eauto.
-Qed.
-
 Lemma refresh_rcf_wf s id : wf_rel s (refresh_rcf s id).
 Proof.
   unfold refresh_rcf. destruct (sv s id) as [x|] eqn:E; [|apply wf_rel_refl].
   eapply set_served_wf; [exact E|reflexivity|reflexivity].
 Qed.
 
-Theorem winv_step s o s' r : Winv s -> op_hazard_free s o -> run_cmd s o = (s', r) -> Winv s'.
+(* the weight keys after restore_w are what they were *)
+Lemma aget_restore_w m id old k : aget (restore_w m id old) k = if id =? k then old else aget m k.
+Proof. unfold restore_w. destruct old; [apply aget_aset|apply aget_adel]. Qed.
+
+Lemma restore_weights_wagree s s0 id :
+  served s = served s0 -> (forall k, k <> id -> aget (st_lw s) k = aget (st_lw s0) k /\ aget (st_rw s) k = aget (st_rw s0) k) ->
+  Winv s0 -> Winv (restore_weights s s0 id).
 Proof.
-  unfold run_cmd. destruct (crashed s); [intros I _ H; inv H; exact I|].
-  destruct o as [g p f|id ls force f|id pd f|id f|id f|corder f|id lw rw f|order f|id f|rg stores]; cbn [run_cmd0 op_hazard_free]; intros I Hz H.
+  intros Sv Fr I k. specialize (I k). unfold wagree, wl, wr_, sv in *. cbn [served st_lw st_rw restore_weights].
+  rewrite Sv, !aget_restore_w. destruct (Z.eqb_spec id k) as [<-|Hne]; [exact I|].
+  destruct (Fr k (not_eq_sym Hne)) as [A B]. rewrite A, B. exact I.
+Qed.
+
+Lemma delete_store_winv s id f s1 ok :
+  delete_store s id f = (s1, ok) -> Winv s ->
+  if ok then (forall k, k <> id -> wagree s1 k) /\ aget (st_lw s1) id = None /\ aget (st_rw s1) id = None /\ served s1 = served s
+  else Winv s1.
+Proof.
+  intros H I. unfold delete_store in H.
+  assert (R : forall s', served s' = served s ->
+                (forall k, k <> id -> aget (st_lw s') k = aget (st_lw s) k /\ aget (st_rw s') k = aget (st_rw s) k) ->
+                Winv (restore_weights s' s id)) by (intros; apply restore_weights_wagree; auto).
+  destruct (wr_cases f id 0) as [W0|[W0|W0]]; rewrite W0 in H; cbn [negb] in H.
+  2:{ inv H. apply R; [reflexivity|]. auto. }
+  2:{ inv H. apply R; [reflexivity|]. intros k Hk. cbn. rewrite aget_adel_ne; auto. }
+  destruct (wr_cases f id 1) as [W1|[W1|W1]]; rewrite W1 in H; cbn [negb] in H.
+  2:{ inv H. apply R; [reflexivity|]. intros k Hk. cbn. rewrite aget_adel_ne; auto. }
+  2:{ inv H. apply R; [reflexivity|]. intros k Hk. cbn. rewrite !aget_adel_ne; auto. }
+  destruct (wr_cases f id 2) as [W2|[W2|W2]]; rewrite W2 in H; cbn [negb] in H; inv H.
+  - split; [|cbn; rewrite !aget_adel_eq; auto].
+    intros k Hk. specialize (I k). unfold wagree, wl, wr_, sv in *. cbn. rewrite !aget_adel_ne; auto.
+  - apply R; [reflexivity|]. intros k Hk. cbn. rewrite !aget_adel_ne; auto.
+  - apply R; [reflexivity|]. intros k Hk. cbn. rewrite !aget_adel_ne; auto.
+Qed.
+
+Lemma clean_loop_winv f order : forall s s' r, clean_loop s order f = (s', r) -> Winv s -> Winv s'.
+Proof.
+  induction order as [|id rest IH]; intros s s' r H I; cbn [clean_loop] in H; [inv H; exact I|].
+  destruct (sv s id) as [x|] eqn:E; [|eapply IH; eauto].
+  destruct (is_tomb x && (s_rcf x <=? 0))%bool; [|eapply IH; eauto].
+  destruct (delete_store s id f) as [s1 ok] eqn:Ed.
+  pose proof (delete_store_winv _ _ _ _ _ Ed I) as D. destruct ok; [|inv H; exact D].
+  destruct D as (D1&D2&D3&D4). eapply IH; [exact H|].
+  intros k. unfold wagree. rewrite sv_del_served. destruct (Z.eqb_spec id k) as [<-|Hne].
+  - cbn. auto.
+  - specialize (D1 k (not_eq_sym Hne)). exact D1.
+Qed.
+
+Theorem winv_step s o s' r : Winv s -> run_cmd s o = (s', r) -> Winv s'.
+Proof.
+  destruct o as [g p f|id ls force f|id pd f|id f|id f|corder f|id lw rw f|order f|id f|rg stores]; cbn [run_cmd]; intros I H.
   - assert (P : forall s1 r1, do_put s p f = (s1, r1) -> Winv s1).
     { unfold do_put. destruct (put_impl s p false f) as [s1 r1] eqn:E. intros s2 r2 H2.
-      pose proof (put_impl_wf _ _ _ _ _ _ E Hz I) as I1.
+      pose proof (put_impl_winv _ _ _ _ _ _ E I) as I1.
       destruct r1; inv H2; try exact I1. eapply Winv_same_store; [apply same_store_version_change|exact I1]. }
     destruct g; [destruct (sv s (p_id p)) as [x|]; [destruct (is_tomb x); [inv H; exact I|]|]|]; eapply P; eauto.
   - unfold do_labels in H. destruct (sv s id) as [x|] eqn:E; [|inv H; exact I].
-    eapply put_impl_wf; [exact H| |exact I]. cbn. intros Hn. congruence.
+    eapply put_impl_winv; eauto.
   - unfold do_remove in H. destruct (sv s id) as [x|] eqn:E; [|inv H; exact I].
     destruct (sstate_eqb (s_state x) Offline && Bool.eqb (s_pd x) pd)%bool; [inv H; exact I|].
     destruct (is_tomb x); [inv H; exact I|]. destruct (s_pd x); [inv H; exact I|].
@@ -517,32 +504,32 @@ Proof.
     eapply Winv_wf; [exact I|eapply put_locked_wf; [exact Epl|exact E|reflexivity|reflexivity]].
   - eapply Winv_wf; [exact I|eapply do_bury_wf; eauto].
   - inv H. eapply Winv_wf; [exact I|apply do_check_wf].
-  - subst f. unfold do_weight in H. destruct (sv s id) as [x|] eqn:E; [|inv H; exact I].
-    cbn [wr negb] in H.
+  - (* SetStoreWeight: success writes both keys and the served weights; every failure puts the keys back *)
+    unfold do_weight in H. destruct (sv s id) as [x|] eqn:E; [|inv H; exact I].
+    destruct (wr_cases f id 0) as [W0|[W0|W0]]; rewrite W0 in H; cbn [negb] in H.
+    2:{ inv H. apply restore_weights_wagree; auto. }
+    2:{ inv H. apply restore_weights_wagree; [reflexivity| |exact I]. intros k Hk. cbn. rewrite aget_aset_ne; auto. }
+    destruct (wr_cases f id 1) as [W1|[W1|W1]]; rewrite W1 in H; cbn [negb] in H.
+    2:{ inv H. apply restore_weights_wagree; [reflexivity| |exact I]. intros k Hk. cbn. rewrite aget_aset_ne; auto. }
+    2:{ inv H. apply restore_weights_wagree; [reflexivity| |exact I]. intros k Hk. cbn. rewrite !aget_aset_ne; auto. }
     match type of H with context [put_locked ?a ?b ?c ?d ?e] => destruct (put_locked a b c d e) as [s2 ok] eqn:Epl end.
-    inv H. unfold put_locked in Epl. cbn [wr] in Epl. inv Epl.
-    intros j. unfold wagree. rewrite sv_roll_add, sv_set_served.
-    destruct (f_roll_add (set_served (write_meta (write_rw (write_lw s id lw) id rw) id
-       (meta_of (SStore (s_addr x) (s_state x) (s_pd x) (renumber (labels_of (s_cells x))) (length (s_cells x)) (s_ver x) lw rw (s_rcf x) (s_hbp x) (s_hb x)))) id
-       (SStore (s_addr x) (s_state x) (s_pd x) (renumber (labels_of (s_cells x))) (length (s_cells x)) (s_ver x) lw rw (s_rcf x) (s_hbp x) (s_hb x))) id) as (_&_&C&D).
-    unfold wl, wr_. rewrite C, D. cbn [st_lw st_rw set_served write_meta write_rw write_lw].
-    rewrite !aget_aset. destruct (Z.eqb_spec id j) as [<-|Hne].
-    + cbn. auto.
-    + specialize (I j). unfold wagree, wl, wr_ in I. exact I.
+    destruct (put_locked_full _ _ _ _ _ _ _ Epl) as (A&_&_&D&F). cbn [st_lw st_rw write_rw write_lw] in D, F.
+    destruct ok; inv H.
+    + intros k. unfold wagree, wl, wr_. rewrite A, D, F. cbn [andb]. rewrite !aget_aset.
+      destruct (Z.eqb_spec id k) as [<-|Hne]; [cbn; auto|]. exact (I k).
+    + intros k. unfold wagree, wl, wr_, sv. cbn [served st_lw st_rw write_rw write_lw]. fold (sv s2 k).
+      rewrite A, D, F. cbn [andb]. rewrite !aget_aset. unfold sv at 1. cbn [served write_rw write_lw]. fold (sv s k).
+      destruct (Z.eqb_spec id k) as [<-|Hne]; [rewrite E; auto|]. exact (I k).
   - unfold do_clean in H. destruct (clean_loop s order f) as [s1 r1] eqn:E.
     assert (s' = s1) as -> by (destruct r1; try (inv H; reflexivity); destruct (cleanable s1); inv H; reflexivity).
-    eapply Winv_wf; [exact I|eapply clean_loop_wf; eauto].
+    eapply clean_loop_winv; eauto.
   - unfold do_heartbeat in H. destruct (sv s id) as [x|] eqn:E; [|inv H; exact I].
     destruct (is_tomb x); [inv H; exact I|].
-    destruct (if s_hbp x then (false, true) else wr f id 0) as [applied ok].
-    match type of H with context [roll_add ?a ?b] => set (s2 := roll_add a b) in * end.
-    assert (W2 : wf_rel s s2).
-    { subst s2. eapply wf_rel_trans; [|apply wf_rel_same_store, same_store_roll_add].
-      eapply wf_rel_trans; [|eapply (set_served_wf _ id x); [|reflexivity|reflexivity]].
-      - destruct applied; (split; [reflexivity|split; [reflexivity|intros j y Ej; eauto]]).
-      - destruct applied; exact E. }
-    eapply Winv_wf; [exact I|]. eapply wf_rel_trans; [exact W2|]. apply wf_rel_same_store.
-    destruct (existsb _ (rolling s2)); inv H; repeat split.
+    destruct (if s_hbp x then (false, true) else wr f id 0) as [applied ok]. inv H.
+    eapply Winv_wf; [exact I|].
+    eapply wf_rel_trans; [|eapply (set_served_wf _ id x); [|reflexivity|reflexivity]].
+    + destruct applied; (split; [reflexivity|split; [reflexivity|intros j; destruct (sv s j) eqn:Ej; cbn; unfold sv in *; cbn; rewrite ?Ej; eauto]]).
+    + destruct applied; exact E.
   - inv H. eapply Winv_wf; [exact I|]. unfold do_region.
     set (s1 := set_regions s (aset (regions s) rg stores)).
     assert (G : forall l a, wf_rel s a -> wf_rel s (fold_left refresh_rcf l a)).
@@ -554,139 +541,81 @@ Qed.
 (* ---------- histories ---------- *)
 Definition reach (cv : ver) (p : payload) (ops : list op) : state := run_state run_op (boot cv p) ops.
 
-Fixpoint hazard_free (s : state) (ops : list op) : Prop :=
-  match ops with [] => True | o :: r => op_hazard_free s o /\ hazard_free (fst (run_cmd s o)) r end.
-
 Lemma Winv_boot cv p : Winv (boot cv p).
 Proof.
-  intros id. unfold wagree, sv, boot. cbn. destruct (p_id p =? id); [|exact I]. cbn. auto.
+  intros id. unfold wagree, sv, boot, wl, wr_. cbn. destruct (p_id p =? id); cbn; auto.
 Qed.
 
 Lemma run_op_state s o : fst (run_op s o) = fst (run_cmd s o).
 Proof. unfold run_op. destruct (run_cmd s o); reflexivity. Qed.
 
-Lemma Winv_run s ops : Winv s -> hazard_free s ops -> Winv (run_state run_op s ops).
+Lemma Winv_run s ops : Winv s -> Winv (run_state run_op s ops).
 Proof.
-  revert s; induction ops as [|o r IH]; intros s I H; cbn [run_state]; [exact I|].
-  destruct H as [H1 H2]. rewrite run_op_state. apply IH; [|exact H2].
+  revert s; induction ops as [|o r IH]; intros s I; cbn [run_state]; [exact I|].
+  rewrite run_op_state. apply IH.
   destruct (run_cmd s o) as [s1 r1] eqn:E. cbn [fst]. eapply winv_step; eauto.
 Qed.
 
 (* statement 4: after every successful change the stored record equals the served record *)
-Lemma success_step s o s' r :
-  Winv s -> op_hazard_free s o -> run_cmd s o = (s', r) -> (is_err r = false \/ is_clean o = true) ->
-  forall id, sproj s' id <> sproj s id -> agree s' id.
-Proof.
-  intros I Hz H Hr id Hc. pose proof (winv_step _ _ _ _ I Hz H) as I'.
-  destruct (run_cmd_outcome _ _ _ _ H id) as [E|_ Hs|old ls He Hm _ _].
-  - contradiction.
-  - apply synced_wagree_agree; [exact Hs|apply I'].
-  - exfalso. destruct Hr as [Hr|Hr]; [congruence|].
-    destruct o; cbn in Hr, Hm; try discriminate; contradiction.
-Qed.
+Definition success_full : Prop :=
+  forall cv p ops o s' r, run_cmd (reach cv p ops) o = (s', r) -> (is_err r = false \/ is_clean o = true) ->
+    forall id, sproj s' id <> sproj (reach cv p ops) id -> agree s' id.
 
-Theorem success_partial_pf cv p ops o s' r :
-  hazard_free (boot cv p) (ops ++ [o]) -> run_cmd (reach cv p ops) o = (s', r) ->
-  (is_err r = false \/ is_clean o = true) ->
-  forall id, sproj s' id <> sproj (reach cv p ops) id -> agree s' id.
+Theorem success_full_pf : success_full.
 Proof.
-  intros Hz H. unfold reach in *.
-  assert (G : forall s, Winv s -> hazard_free s (ops ++ [o]) ->
-            Winv (run_state run_op s ops) /\ op_hazard_free (run_state run_op s ops) o).
-  { clear. induction ops as [|a r IH]; intros s I H; cbn [app hazard_free run_state] in *.
-    - destruct H; auto.
-    - destruct H as [H1 H2]. rewrite run_op_state. apply IH; [|exact H2].
-      destruct (run_cmd s a) as [s1 r1] eqn:E. cbn [fst]. eapply winv_step; eauto. }
-  destruct (G _ (Winv_boot cv p) Hz) as [I Ho]. eapply success_step; eauto.
+  intros cv p ops o s' r H Hr id Hc.
+  pose proof (Winv_run _ ops (Winv_boot cv p)) as I. fold (reach cv p ops) in I.
+  pose proof (winv_step _ _ _ _ I H) as I'.
+  destruct (run_cmd_outcome _ _ _ _ H id) as [E|_ Hs]; [contradiction|].
+  apply synced_wagree_agree; [exact Hs|apply I'].
 Qed.
 
 Lemma changed_meta_is_stored_pf s o s' r :
   run_cmd s o = (s', r) -> (is_err r = false \/ is_clean o = true) ->
   forall id, sproj s' id <> sproj s id -> synced s' id.
 Proof.
-  intros H Hr id Hc. destruct (run_cmd_outcome _ _ _ _ H id) as [E|_ Hs|old ls He Hm _ _]; [contradiction|exact Hs|].
-  exfalso. destruct Hr as [Hr|Hr]; [congruence|]. destruct o; cbn in Hr, Hm; try discriminate; contradiction.
+  intros H Hr id Hc. destruct (run_cmd_outcome _ _ _ _ H id) as [E|_ Hs]; [contradiction|exact Hs].
 Qed.
 
-(* statement 5: a failed operation leaves the served state unchanged *)
-Definition op_merge_inert (s : state) (o : op) : Prop :=
-  forall id ls old, merging o id ls -> sv s id = Some old ->
-    labels_of (snd (merge_labels (s_cells old) (s_cap old) ls)) = labels_of (s_cells old).
+(* statement 5: a failed operation leaves the served state unchanged (any state, any command, any fault) *)
+Definition failed_full : Prop :=
+  forall s o s' r, run_cmd s o = (s', r) -> is_err r = true -> is_clean o = false ->
+    forall id, sproj s' id = sproj s id.
 
-Lemma failed_only_labels_pf s o s' r :
-  run_cmd s o = (s', r) -> is_err r = true -> is_clean o = false ->
-  forall id, sproj s' id = sproj s id \/
-             exists old ls, merging o id ls /\ sv s id = Some old /\
-                            sv s' id = Some (with_cells old (snd (merge_labels (s_cells old) (s_cap old) ls))).
+Theorem failed_full_pf : failed_full.
 Proof.
-  intros H He Hc id. destruct (run_cmd_outcome _ _ _ _ H id) as [E|Hr _|old ls _ Hm Eo En].
-  - left; exact E.
-  - destruct Hr; congruence.
-  - right. exists old, ls. auto.
-Qed.
-
-Theorem failed_partial_pf s o s' r :
-  run_cmd s o = (s', r) -> is_err r = true -> is_clean o = false -> op_merge_inert s o ->
-  forall id, sproj s' id = sproj s id.
-Proof.
-  intros H He Hc Hi id. destruct (failed_only_labels_pf _ _ _ _ H He Hc id) as [E|(old&ls&Hm&Eo&En)]; [exact E|].
-  unfold sproj. rewrite En, Eo. cbn [option_map]. unfold proj, with_cells. cbn [s_addr s_state s_pd s_cells s_ver s_lw s_rw]. rewrite (Hi _ _ _ Hm Eo). reflexivity.
+  intros s o s' r H He Hc id. destruct (run_cmd_outcome _ _ _ _ H id) as [E|Hr _]; [exact E|].
+  destruct Hr; congruence.
 Qed.
 
 (* the cleanup, when it stops at a storage error: what it already removed is gone from both sides *)
 Lemma clean_error_pf s order f s' r :
   run_cmd s (OClean order f) = (s', r) -> forall id, sproj s' id = sproj s id \/ synced s' id.
 Proof.
-  intros H id. destruct (run_cmd_outcome _ _ _ _ H id) as [E|_ Hs|old ls _ Hm _ _]; auto. cbn in Hm. contradiction.
+  intros H id. destruct (run_cmd_outcome _ _ _ _ H id) as [E|_ Hs]; auto.
 Qed.
 
-(* ---------- the two full statements and their refutations ---------- *)
-Definition success_full : Prop :=
-  forall cv p ops o s' r, run_cmd (reach cv p ops) o = (s', r) -> (is_err r = false \/ is_clean o = true) ->
-    forall id, sproj s' id <> sproj (reach cv p ops) id -> agree s' id.
-
-Definition failed_full : Prop :=
-  forall cv p ops o s' r, run_cmd (reach cv p ops) o = (s', r) -> is_err r = true -> is_clean o = false ->
-    forall id, sproj s' id = sproj (reach cv p ops) id.
-
+(* ---------- regressions: the witnesses that refuted the two statements before the fix commits ---------- *)
 Definition boot1 : payload := Payload 1 "a1" Up false [("zone", "z1"); ("host", "h1")] (Some (4, 0, 0)).
 
-(* SetStoreWeight whose second write fails (the leader-weight key is already written), then any
-   successful change of that store: storage says leader weight 3, the served record says 1 *)
-Definition w_weight : list op := [OWeight 1 3 4 (Fault 1 1 FBefore)].
-(* weights 3/4, offline, buried, record removed, id registered again: served 1/1, reloaded 3/4 *)
+(* SetStoreWeight whose second write fails: the leader-weight key is put back; after the next change all agree *)
+Lemma regression_weight_rollback :
+  let s1 := reach (0, 0, 0) boot1 [OWeight 1 3 4 (Fault 1 1 FBefore)] in
+  aget (st_lw s1) 1 = None /\
+  exists s', run_cmd s1 (ORemove 1 false NoFault) = (s', ROk) /\ agree s' 1.
+Proof. cbn zeta. split; [vm_compute; reflexivity|]. eexists. split; [vm_compute; reflexivity|]. unfold agree. vm_compute. reflexivity. Qed.
+
+(* weights 3/4, offline, buried, record removed (with its weight keys), id registered again: served 1/1, stored 1/1 *)
 Definition w_cleanup : list op :=
   [OWeight 1 3 4 NoFault; OPut false (Payload 2 "a2" Up false [] (Some (4, 0, 0))) NoFault;
    ORemove 1 false NoFault; OCheck [1] NoFault; OClean [1] NoFault].
-
-Lemma success_refuted_pf : ~ success_full.
-Proof.
-  intros H.
-  specialize (H (0, 0, 0) boot1 w_weight (ORemove 1 false NoFault)).
-  destruct (run_cmd (reach (0, 0, 0) boot1 w_weight) (ORemove 1 false NoFault)) as [s' r] eqn:E.
-  specialize (H s' r eq_refl). vm_compute in E. inv E.
-  specialize (H (or_introl eq_refl) 1). vm_compute in H.
-  assert (A : Some ("a1", Offline, false, [("zone", "z1"); ("host", "h1")], (4, 0, 0), 1, 1) <>
-              Some ("a1", Up, false, [("zone", "z1"); ("host", "h1")], (4, 0, 0), 1, 1)) by discriminate.
-  specialize (H A). discriminate H.
-Qed.
-
-Lemma success_refuted_cleanup_pf :
+Lemma regression_cleanup_removes_weight_keys :
   exists s' r, run_cmd (reach (0, 0, 0) boot1 w_cleanup) (OPut false (Payload 1 "a1" Up false [] (Some (4, 0, 0))) NoFault) = (s', r)
-    /\ r = ROk /\ sproj s' 1 <> sproj (reach (0, 0, 0) boot1 w_cleanup) 1 /\ ~ agree s' 1.
-Proof.
-  eexists; eexists. split; [vm_compute; reflexivity|]. split; [reflexivity|]. split.
-  - vm_compute. discriminate.
-  - unfold agree. vm_compute. discriminate.
-Qed.
+    /\ r = ROk /\ agree s' 1.
+Proof. eexists; eexists. split; [vm_compute; reflexivity|]. split; [reflexivity|]. unfold agree. vm_compute. reflexivity. Qed.
 
-(* a non-forced put on an existing store whose save fails: MergeLabels has already overwritten the
-   served label in place (zone z1 -> z2) *)
-Lemma failed_refuted_pf : ~ failed_full.
-Proof.
-  intros H.
-  specialize (H (0, 0, 0) boot1 [] (OPut false (Payload 1 "a1" Up false [("zone", "z2")] (Some (4, 0, 0))) (Fault 1 0 FBefore))).
-  match type of H with forall s' r, ?t = _ -> _ => destruct t as [s' r] eqn:E end.
-  specialize (H s' r eq_refl). vm_compute in E. inv E.
-  specialize (H eq_refl eq_refl 1). vm_compute in H. discriminate H.
-Qed.
+(* a non-forced put on an existing store whose save fails: the served labels are what they were *)
+Lemma regression_failed_put_keeps_labels :
+  run_cmd (boot (0, 0, 0) boot1) (OPut false (Payload 1 "a1" Up false [("zone", "z2"); ("host", "")] (Some (4, 0, 0))) (Fault 1 0 FBefore))
+  = (boot (0, 0, 0) boot1, RStorage).
+Proof. vm_compute. reflexivity. Qed.
